@@ -363,7 +363,18 @@ func oneAssignment() func(catalog.Entry) []catalog.IDAssignment {
 }
 
 func TestCheck(t *testing.T) {
-	engine.Rule("every (group, VSS, access structure, identifier assignment, dealing kind) is one execution; inside it every single-coordinate alteration of every holder's share (+1, -1, :=0, := every other coordinate's value, drop, append) is presented under the owner's identity, and the honest share and the ':= other value' / drop / append-0 alterations under every holder's identity and a non-holder's; every single edit of the verification vector (entry j +G, -G, +H, := identity, swap j<->k, drop last/first, append identity/G) is presented to every holder together with the share recomputed for the edited vector; every subset of holders is reconstructed in the exponent. A case is distinct by (group, VSS, structure, assignment, dealing kind, holder, alteration, claimed identity); non-trivial = Verify (and NewBaseShard) was called on it and its verdict compared with the math/big prediction.")
+	rule := "every (group, VSS, access structure, identifier assignment, dealing kind) is one execution; inside it: (A) the honest share of every holder is presented under every holder's identity and a non-holder's; every single-coordinate alteration of every holder's share (+1, -1, :=0 on secret and blinding coordinates, := the value of every other coordinate of every holder, drop a coordinate, append 0 / a copy, unequal component lengths) is presented "
+	if engine.Thorough() {
+		rule += "under every identity; "
+	} else {
+		rule += "under the owner's identity, the donor's identity (for a copied value) and every identity whose row count equals the new length (for drop/append); "
+	}
+	rule += "for combined dealings the partial sums and the combined share against each single vector; (B) every single edit of the verification vector (entry j +G, +H, := identity, swap j<->k, drop last, append identity, append G"
+	if engine.Thorough() {
+		rule += ", -G, drop first"
+	}
+	rule += ") is presented to every holder with its honest share, and with the share recomputed for the edited vector; (C) every subset of holders is reconstructed in the exponent, minimal qualified sets by ReconstructAndVerify with and without one altered coordinate. A case is distinct by (group, VSS, structure, assignment, dealing kind, holder, alteration or edit, claimed identity); non-trivial = Verify (and mpc.NewBaseShard where stated) was called on it and its verdict compared with the math/big prediction. Structures the library refuses to build (hierarchical identifiers outside the field-size condition) are counted as trivial executions."
+	engine.Rule(rule)
 	engine.Assume(
 		"math/big and /verif/mc/ref/linalg (matrix-vector product) are correct",
 		"the span programme matrix and row labelling are read out of the library (their correctness is C02's subject); the dealer column is read out of the library's DealerFunc and cross-checked: dealt shares = M·r in math/big and V_j = [r_j]G (+[r_h_j]H) by library scalar multiplication (C14's subject)",
